@@ -52,14 +52,53 @@ func (k cell) loads(fn *ssa.Function) []*ssa.UnOp {
 	return out
 }
 
-// cellsOf lists the captured variables of a closure that it both reads and writes.
+// cellsOf lists the persistent locations a function writes: captured variables of a closure, or fields of
+// the receiver of a method.
 func cellsOf(fn *ssa.Function) []cell {
 	var out []cell
+	if fn.Signature.Recv() != nil && len(fn.Params) > 0 {
+		seen := map[*types.Var]bool{}
+		an.Instrs(fn, func(in ssa.Instruction) {
+			st, ok := in.(*ssa.Store)
+			if !ok {
+				return
+			}
+			fa, ok := st.Addr.(*ssa.FieldAddr)
+			if !ok || an.Strip(fa.X) != ssa.Value(fn.Params[0]) {
+				return
+			}
+			f := an.FieldOfAddr(fa)
+			if f != nil && !seen[f] {
+				seen[f] = true
+				out = append(out, cell{name: f.Name(), fld: f})
+			}
+		})
+		return out
+	}
 	for _, fv := range fn.FreeVars {
 		k := cell{name: fv.Name(), fv: fv}
 		if len(k.stores(fn)) > 0 {
 			out = append(out, k)
 		}
+	}
+	return out
+}
+
+// initialStores lists the stores that initialise the cell outside fn: the stores to the captured variable in
+// the enclosing function, or the stores to the field anywhere else in the module.
+func (k cell) initialStores(c *core.Ctx, fn *ssa.Function, _ ssa.Value) []*ssa.Store {
+	var out []*ssa.Store
+	if k.fv != nil {
+		if al, ok := an.FreeVarBinding(k.fv).(*ssa.Alloc); ok {
+			out = append(out, an.StoresTo(al)...)
+		}
+		return out
+	}
+	for _, g := range c.AllFuncs {
+		if g == fn {
+			continue
+		}
+		out = append(out, k.stores(g)...)
 	}
 	return out
 }
@@ -210,6 +249,9 @@ func returnNonNeg(ret *ssa.Return, v ssa.Value, nonneg func(v ssa.Value) (bool, 
 	}
 	if cv, ok := v.(*ssa.Convert); ok {
 		inner := noConv(cv.X)
+		if ok, why := clampedNonNeg(inner, 2); ok {
+			return true, "int(" + why + ")"
+		}
 		if call, ok := inner.(*ssa.Call); ok {
 			if an.IsFunc(an.Callee(call), "math", "Max") {
 				for _, a := range call.Call.Args {
@@ -252,6 +294,40 @@ func returnNonNeg(ret *ssa.Return, v ssa.Value, nonneg func(v ssa.Value) (bool, 
 		return nonneg(v)
 	}
 	return false, "no lower-bound guard, clamp or non-negative source"
+}
+
+// clampedNonNeg: v is math.Max(k ≥ 0, ·), a non-negative constant, or the result of a module helper all of
+// whose returns are.
+func clampedNonNeg(v ssa.Value, depth int) (bool, string) {
+	v = noConv(v)
+	switch x := v.(type) {
+	case *ssa.Const:
+		if x.Value != nil && x.Float64() >= 0 {
+			return true, "constant " + x.Value.String()
+		}
+	case *ssa.Call:
+		t := an.Callee(x)
+		if an.IsFunc(t, "math", "Max") {
+			for _, a := range x.Call.Args {
+				if ok, why := clampedNonNeg(a, depth); ok {
+					return true, "math.Max(" + why + ", ·)"
+				}
+			}
+			return false, ""
+		}
+		if t != nil && t.Blocks != nil && core.InModule(t) && depth > 0 && t.Signature.Results().Len() == 1 {
+			rets := an.Returns(t)
+			for _, ret := range rets {
+				if ok, _ := clampedNonNeg(ret.Results[0], depth-1); !ok {
+					return false, ""
+				}
+			}
+			if len(rets) > 0 {
+				return true, t.Name() + "(·) whose every return is clamped at ≥ 0"
+			}
+		}
+	}
+	return false, ""
 }
 
 func sameConvSource(a, b ssa.Value) bool { return noConv(a) == noConv(b) }
